@@ -24,4 +24,8 @@ def run(ctx):
     obs += [o for o in cp.int_rule(ctx, 'C09', writer_only=True) if "/ser/" in o["key"] or ".ser/" in o["key"]]
     # the options are read-only while a sheet is compiled (wave 9; shared by C08, C09, C10, C17)
     obs += cp.options_untouched_rule(ctx, 'C09')
+    # wave 10: an at-rule ends at its block or its `;` on every path through the prelude loop
+    obs += cp.at_prelude_terminators_rule(ctx, 'C09')
+    # output offsets used to replay a prefixed prelude are byte offsets of the output (shared with C08 / C17)
+    obs += cp.capture_offsets_rule(ctx, 'C09')
     return obs
